@@ -4,6 +4,23 @@ _s13 = importlib.util.spec_from_file_location("spec_C13_for_C20", _p13)
 _m13 = importlib.util.module_from_spec(_s13)
 _s13.loader.exec_module(_m13)
 
+_p08 = os.path.join(os.path.dirname(os.path.abspath(__file__)), "..", "C08", "spec.py")
+_s08 = importlib.util.spec_from_file_location("spec_C08_for_C20", _p08)
+_m08 = importlib.util.module_from_spec(_s08)
+_s08.loader.exec_module(_m08)
+
+def _resize_ss2():
+    """resize2fs moving the sparse_super2 backup when the last group changes (sources harness/C08/ss2reserve.c, ss2clear.c): the
+    new backup footprint is evacuated before the flush writes a superblock + descriptors there; the old one is given back exactly"""
+    out = []
+    for h in _m08.HARNESSES:
+        if h["name"] in ("ss2reserve", "ss2clear"):
+            d = dict(h)
+            d["src"] = "../C08/" + h["src"]
+            d["configs"] = [c for c in h["configs"] if c.get("_tier") != "thorough"][:2]
+            out.append(d)
+    return out
+
 def _main_backup():
     """e2fsck/unix.c main() through its final close (source harness/C13/main_e2fsck_full.c): a repairing run that completed on
     a valid filesystem whose first backup disagrees with the primary ends with MASTER_SB_ONLY cleared (backups refreshed)"""
@@ -46,6 +63,7 @@ HARNESSES = [
          unwind=8, unwindset=["test_root.0:6", "memcmp.0:17", "main.0:7", "main.1:17", "main.2:17"], backends=["default", "kissat"],
          bound="1..6 groups; primary superblock, candidate backup superblock (all 1024 bytes each), fs flags, e2fsck flags/options symbolic"),
     _main_backup(),
+] + _resize_ss2() + [
     dict(name="bg_has_super", src="bg_has_super.c",
          funcs=["ext2fs_bg_has_super", "test_root"],
          unwindset=["test_root.0:22", "ref_is_power.0:22"],
